@@ -6,7 +6,7 @@ import "github.com/gopher-fleece/runtime"
 type BetaBody struct {
 	Count int    `json:"count" validate:"gte=1"`
 	Note  string `json:"note,omitempty"`
-	Rank  Rank   `json:"rank"`
+	Rank  Rank   `json:"rank" validate:"oneof=low"`
 }
 
 // @Tag(Beta)
